@@ -293,9 +293,13 @@ def normalize_url(
         port = None
 
     # Normalizing the path
+    # NOTE: unquoting comes first because dot segments can be spelled with
+    # escapes (%2E), while an escaped slash is never unquoted
+    path = safely_unquote_path(path)
+
     if path:
         trailing_slash = False
-        if path.endswith("/") and len(path) > 1:
+        if path.endswith(("/", "/.", "/..")) and len(path) > 1:
             trailing_slash = True
         path = normpath(path)
         if trailing_slash and not strip_trailing_slash:
@@ -402,8 +406,6 @@ def normalize_url(
 
         if quoted:
             password = safely_quote(password)
-
-    path = safely_unquote_path(path)
 
     if quoted:
         path = safely_quote(path)
